@@ -1,6 +1,6 @@
 (* Non-vacuity of the hypotheses of the C16 theorems. *)
 From Coq Require Import List NArith Bool.
-From LV Require Import Payments.Model Payments.Proofs Payments.Props.
+From LV Require Import Payments.Model Payments.Proofs Payments.Props Payments.Lin Payments.LinProofs.
 Import ListNotations.
 Local Open Scope N_scope.
 
@@ -50,3 +50,46 @@ Proof.
   split; [apply C16_refinement_partial; [exact good_in_domain | exact good_disciplined]|].
   vm_compute; reflexivity.
 Qed.
+
+(* ---- concurrent histories: the witness checker is neither vacuous nor
+   trivially true.  Init returned (time 2) before two overlapping
+   registrations of 600 msat each were invoked (3..6 and 4..5). *)
+Definition ok600 (id : N) : resp :=
+  mkResp EOk (Some (mkProj StInFlight 1000 400 1 false false None [(id, 600, Inflight)])) [].
+
+(* the implementation's correct answers: one accepted, one ErrValueExceedsAmt *)
+Definition conc_good : list cop :=
+  [mkCop (OInit 0 1000) 1 2 r_ok;
+   mkCop (ORegister 0 (shard 1 600)) 3 6 (r_err EValueExceeds);
+   mkCop (ORegister 0 (shard 2 600)) 4 5 (ok600 2)].
+
+(* linearisable, but only in the order that differs from the invocation order *)
+Example conc_good_linearisable :
+  lin_witness_ok KV conc_good [0; 2; 1]%nat = true /\
+  lin_witness_ok KV conc_good [0; 1; 2]%nat = false /\
+  linearisable KV conc_good.
+Proof.
+  split; [vm_compute; reflexivity|]. split; [vm_compute; reflexivity|].
+  exists (reorder conc_good [0; 2; 1]%nat). apply C16_lin_checker_sound.
+  vm_compute; reflexivity.
+Qed.
+
+(* real time is enforced: Init may not be moved behind a registration that was
+   invoked after it returned *)
+Example conc_realtime_enforced :
+  lin_witness_ok KV conc_good [2; 0; 1]%nat = false /\
+  lin_witness_ok KV conc_good [0; 2]%nat = false /\
+  lin_witness_ok KV conc_good [0; 2; 2]%nat = false.
+Proof. repeat split; vm_compute; reflexivity. Qed.
+
+(* a check-then-act race (both registrations accepted: 1200 > 1000) has no
+   witness at all: every order of the three operations is rejected *)
+Definition conc_bad : list cop :=
+  [mkCop (OInit 0 1000) 1 2 r_ok;
+   mkCop (ORegister 0 (shard 1 600)) 3 6 (ok600 1);
+   mkCop (ORegister 0 (shard 2 600)) 4 5 (ok600 2)].
+
+Example conc_bad_not_linearisable :
+  forallb (fun w => negb (lin_witness_ok KV conc_bad w))
+    [[0;1;2]; [0;2;1]; [1;0;2]; [1;2;0]; [2;0;1]; [2;1;0]]%nat = true.
+Proof. vm_compute; reflexivity. Qed.
